@@ -35,6 +35,7 @@ func (c *SimClock) Now() time.Time {
 }
 
 // Peek reads the time without a yield point (harness use).
+//
 //go:norace
 func (c *SimClock) Peek() time.Time { return c.Epoch.Add(time.Duration(c.now)) }
 
@@ -55,6 +56,7 @@ func (c *SimClock) NewTicker(d time.Duration) *time.Ticker {
 }
 
 // For returns a view of the clock whose tickers are attributed to owner.
+//
 //go:norace
 func (c *SimClock) For(owner unsafe.Pointer, size uintptr) *OwnedClock {
 	return &OwnedClock{c, owner, size}
@@ -77,6 +79,7 @@ func (o *OwnedClock) NewTicker(d time.Duration) *time.Ticker {
 // CanTick: Go's select picks pseudo-randomly (and unseedably) among ready
 // cases, so a tick is delivered only when the channel is empty and the
 // consuming goroutine is idle in its select (not parked inside the simulator).
+//
 //go:norace
 func (c *SimClock) CanTick(tk *SimTicker) bool {
 	if len(tk.C) != 0 {
@@ -89,6 +92,7 @@ func (c *SimClock) CanTick(tk *SimTicker) bool {
 }
 
 // TickAny delivers a tick on the first ticker that can take one; false if none can.
+//
 //go:norace
 func (c *SimClock) TickAny(fire bool) bool {
 	for _, tk := range c.Tickers {
@@ -103,6 +107,7 @@ func (c *SimClock) TickAny(fire bool) bool {
 }
 
 // Tick advances time by the ticker's period and delivers one tick.
+//
 //go:norace
 func (c *SimClock) Tick(tk *SimTicker) {
 	c.Advance(tk.D)
